@@ -308,16 +308,26 @@ async def get_remote_to_remote_write_command(
                 ]
             # Otherwise, if source path is a file
             else:
+                # Extract in a scratch directory next to the destination and rename,
+                # so that tar restores the file mode (a plain `tar -O | tee` loses it)
+                tmp_dir = f"{dst}.sf-tmp"
                 return [
+                    "mkdir",
+                    "-p",
+                    shlex.quote(tmp_dir),
+                    "&&",
                     "tar",
                     "xpf",
                     "-",
-                    "-O",
-                    "|",
-                    "tee",
+                    "-C",
+                    shlex.quote(tmp_dir),
+                    "&&",
+                    "mv",
+                    shlex.quote(posixpath.join(tmp_dir, posixpath.basename(src))),
                     shlex.quote(dst),
-                    ">",
-                    "/dev/null",
+                    "&&",
+                    "rmdir",
+                    shlex.quote(tmp_dir),
                 ]
         # Otherwise, if basename must be preserved
         else:
